@@ -753,7 +753,10 @@ def expr_pde_cases(draw, jit=False):
         for n in names:
             if draw(st.booleans()):
                 bc_ops[f"{n}:*"] = draw(bc_specs(spec, allow_expr=allow_expr))
-    return {"grid": spec, "fields": fields, "rhs": rhs, "consts": consts, "bc": bc, "bc_ops": bc_ops,
+    # NB: the order of the equations matters (it is the order of the fields in the state) and JSON
+    # objects are written with sorted keys -> list of [variable, AST] pairs
+    return {"grid": spec, "fields": fields, "rhs": [[n, rhs[n]] for n in rhs], "consts": consts, "bc": bc,
+            "bc_ops": bc_ops,
             "t": t, "shape_seed": draw(st.integers(0, 2**31)), "unicode": draw(st.booleans()),
             "state": {"seed": draw(st.integers(0, 2**31)), "range": [lo, hi]}}
 
@@ -769,7 +772,7 @@ def lookup_bc(case, var, op):
 
 def build_expr_pde(case, grid):
     texts, alts = {}, set()
-    for i, (n, a) in enumerate(case["rhs"].items()):
+    for i, (n, a) in enumerate(case["rhs"]):
         t, al = G.render_info(a, case["shape_seed"] + i, unicode_ops=case["unicode"])
         texts[n] = t
         alts.update(al)
@@ -804,7 +807,7 @@ def expr_reference(case, grid, datas, cvals):
     vals, Es, used = [], [], []
     ranks = {f["name"]: f.get("rank", 0) for f in case["fields"]}
     full = tuple(shape)
-    for var, ast in case["rhs"].items():
+    for var, ast in case["rhs"]:
         v, E, ev = run_fields(ast, envd, grid, case["grid"], case["t"],
                               lambda op, tag, var=var: lookup_bc(case, var, op), vector=bool(ranks[var]))
         vals.append(v)
@@ -832,13 +835,13 @@ def expr_labels(case, used, alts):
     if any(len({b for b in s if b}) > 1 for s in per_op.values()):
         labs.append("different-bcs-within-one-equation")
     names = set()
-    for a in case["rhs"].values():
+    for _, a in case["rhs"]:
         names |= G.names_in(a)
     if "t" in names:
         labs.append("uses:t")
     if names & set(AXES[case["grid"]["cls"]]):
         labs.append("uses:coordinates")
-    for a in case["rhs"].values():
+    for _, a in case["rhs"]:
         if G.names_in(a, ("uconst",)):
             labs.append("uses:consts")
             break
@@ -879,7 +882,7 @@ def check_expr_numpy_vs_compiled(case, tolk=TOLK):
     b = rhs(state.data.copy(), case["t"])
     w1 = compare(b, a, E, f"PDE({texts!r}): make_pde_rhs('numba') vs evolution_rate", "expr:compiled-vs-interpreted", tolk)
     names = set()
-    for ast in case["rhs"].values():
+    for _, ast in case["rhs"]:
         names |= G.names_in(ast)
     if "t" in names or any(bc_has_expr(x) for x in [case["bc"], *case["bc_ops"].values()]):
         # the same objects at another time (explicit time dependence, time-dependent conditions)
